@@ -72,6 +72,54 @@ theorem C09_model_ok (cfg : PCfg) (v e : ℚ) (hn : 1 ≤ cfg.n) : PrintedOK v e
   · exact hsci false
   · exact hsci true
 
+/-- **C09 (the predicate means "n significant figures").** Whatever output satisfies `PrintedOK`
+    (the model's or the implementation's): when the number that fixes the place — the uncertainty
+    in automatic/error mode, the value in value mode — is non-zero, that number read back from the
+    text is `m · 10^pl` with an integer `m` of exactly `n` digits, `10^(n−1) ≤ |m| ≤ 10^n`
+    (`10^n` only through a carry). So the predicate cannot be met by printing more or fewer
+    significant figures than configured. -/
+theorem C09_spec_sig_figs (v e : ℚ) (cfg : PCfg) (p : Printed) (hn : 1 ≤ cfg.n)
+    (hx : pivot cfg.mode v e ≠ 0) (h : PrintedOK v e cfg p) :
+    ∃ pl m : ℤ, (10 : ℚ) ^ (cfg.n - 1) ≤ |(m : ℚ)| ∧ |(m : ℚ)| ≤ (10 : ℚ) ^ cfg.n ∧
+      (if cfg.mode.onError then (p.mantE : ℚ) * p10 (p.pow10 - p.decE)
+        else (p.mantV : ℚ) * p10 (p.pow10 - p.decV)) = (m : ℚ) * p10 pl := by
+  obtain ⟨k, hk⟩ : ∃ k, cfg.n = k + 1 := ⟨cfg.n - 1, by omega⟩
+  obtain ⟨-, h2⟩ := h
+  simp only [hx, if_false] at h2
+  rw [hk] at h2 ⊢
+  simp only [Nat.add_sub_cancel]
+  have key : ∀ pl : ℤ,
+      (pl = ilog10 (pivot cfg.mode v e) - ((k + 1 : ℕ) : ℤ) + 1 ∨
+        (pl = ilog10 (pivot cfg.mode v e) - ((k + 1 : ℕ) : ℤ) + 1 + 1 ∧
+          p10 ((k + 1 : ℕ) : ℤ) - tol ≤
+            qabs (pivot cfg.mode v e) / p10 (ilog10 (pivot cfg.mode v e) - ((k + 1 : ℕ) : ℤ) + 1))) →
+      PlaceOK v e p pl →
+      ∃ pl m : ℤ, (10 : ℚ) ^ k ≤ |(m : ℚ)| ∧ |(m : ℚ)| ≤ (10 : ℚ) ^ (k + 1) ∧
+        (if cfg.mode.onError then (p.mantE : ℚ) * p10 (p.pow10 - p.decE)
+          else (p.mantV : ℚ) * p10 (p.pow10 - p.decV)) = (m : ℚ) * p10 pl := by
+    intro pl hpl hP
+    obtain ⟨-, hmV, hbV, hE⟩ := hP
+    unfold pivot at hx hpl
+    cases hm : cfg.mode.onError
+    · simp only [hm, Bool.false_eq_true, if_false] at hx hpl ⊢
+      obtain ⟨m, e1, e2, e3⟩ := pivot_digits v _ hx k pl hpl hmV hbV
+      exact ⟨pl, m, e2, e3, e1⟩
+    · simp only [hm, if_true] at hx hpl ⊢
+      obtain ⟨hmE, hbE⟩ := hE hx
+      obtain ⟨m, e1, e2, e3⟩ := pivot_digits e _ hx k pl hpl hmE hbE
+      exact ⟨pl, m, e2, e3, e1⟩
+  rcases h2 with hP | ⟨hthr, hP⟩
+  · exact key _ (Or.inl rfl) hP
+  · exact key _ (Or.inr ⟨rfl, hthr⟩) hP
+
+/-- **C09 (model prints n significant figures).** Corollary for the model's own output. -/
+theorem C09_model_sig_figs (cfg : PCfg) (v e : ℚ) (hn : 1 ≤ cfg.n) (hx : pivot cfg.mode v e ≠ 0) :
+    ∃ pl m : ℤ, (10 : ℚ) ^ (cfg.n - 1) ≤ |(m : ℚ)| ∧ |(m : ℚ)| ≤ (10 : ℚ) ^ cfg.n ∧
+      (if cfg.mode.onError then ((fmt cfg v e).mantE : ℚ) * p10 ((fmt cfg v e).pow10 - (fmt cfg v e).decE)
+        else ((fmt cfg v e).mantV : ℚ) * p10 ((fmt cfg v e).pow10 - (fmt cfg v e).decV))
+        = (m : ℚ) * p10 pl :=
+  C09_spec_sig_figs v e cfg (fmt cfg v e) hn hx (C09_model_ok cfg v e hn)
+
 /-- non-vacuity: the hypothesis of `C09_model_ok` is met by every configuration of the domain
     (n = 1 … 6) -/
 example : 1 ≤ ({ style := .scientific, mode := .value, n := 2 } : PCfg).n := by decide
